@@ -151,7 +151,9 @@ func (d *Driver) Snapshot(ctx context.Context) (migrate.RestoreFunc, error) {
 	return func(ctx context.Context) error {
 		for _, stmt := range []string{
 			"PRAGMA writable_schema = 1;",
-			"DELETE FROM sqlite_master WHERE type IN ('table', 'view', 'index', 'trigger');",
+			// Tables that are hidden from the inspection (and therefore from the
+			// check above) are not ours to delete. See, tablesQuery for details.
+			`DELETE FROM sqlite_master WHERE type IN ('table', 'view', 'index', 'trigger') AND tbl_name NOT LIKE 'libsql\_%' ESCAPE '\';`,
 			"PRAGMA writable_schema = 0;",
 			"VACUUM;",
 		} {
